@@ -69,6 +69,7 @@ class Module(object):
         self.functions = {}
         self.assigns = {}    # name -> value node (last top-level assignment)
         self.imports = {}    # alias -> dotted target ('pcbasic.basic.base.error' or 'pkg.mod:name')
+        self.star_imports = []   # dotted module names imported with *
         self._index()
 
     def _resolve_rel(self, level, module):
@@ -99,7 +100,10 @@ class Module(object):
             elif isinstance(st, ast.ImportFrom):
                 base = self._resolve_rel(st.level, st.module)
                 for a in st.names:
-                    self.imports[a.asname or a.name] = base + ':' + a.name
+                    if a.name == '*':
+                        self.star_imports.append(base)
+                    else:
+                        self.imports[a.asname or a.name] = base + ':' + a.name
 
     def _toplevel(self, body):
         """Top-level statements, descending into if/try at module level."""
@@ -303,17 +307,23 @@ class SourceIndex(object):
                 cur = self._follow_import(tgt)
                 if cur is None:
                     return None
-            elif p in m.assigns and not first:
-                cur = ('const', m.assigns[p])
             elif p in m.assigns:
                 cur = ('const', m.assigns[p])
             else:
-                # submodule of a package
-                sub = self.by_name.get(m.name + '.' + p)
-                if sub is not None:
-                    cur = ('module', sub)
-                else:
-                    return None
+                cur = None
+                for star in reversed(m.star_imports):
+                    sm = self.by_name.get(star)
+                    if sm is not None and sm is not m:
+                        cur = self.resolve_name(sm, p)
+                        if cur is not None:
+                            break
+                if cur is None:
+                    # submodule of a package
+                    sub = self.by_name.get(m.name + '.' + p)
+                    if sub is not None:
+                        cur = ('module', sub)
+                    else:
+                        return None
             first = False
         return cur
 
@@ -336,8 +346,12 @@ class SourceIndex(object):
                 return self._follow_import(m.imports[name], depth + 1)
             if name in m.assigns:
                 return ('const', m.assigns[name])
-            if name == '*':
-                return ('module', m)
+            for star in reversed(m.star_imports):
+                sm = self.by_name.get(star)
+                if sm is not None and sm is not m:
+                    r = self.resolve_name(sm, name)
+                    if r is not None:
+                        return r
             return None
         m = self.by_name.get(tgt)
         if m is not None:
